@@ -257,6 +257,10 @@ func c16Run(c *core.Ctx, i int) {
 		c16NestedBreaks(c)
 		return
 	}
+	if i%20 == 6 || i%20 == 16 {
+		c16EdgeOperands(c, i/20*2+i%20/16)
+		return
+	}
 	g := &vmGen{unsafe: 0.04, zeroStep: true}
 	prog, globals := vmProgram(r, g)
 	text := gen.Print(prog, nil)
@@ -343,6 +347,55 @@ func c16Special(c *core.Ctx) {
 	c.Distinct(text)
 	c.Event("disagreements_checked", 1)
 	c16Compare(c, text, globals, "")
+}
+
+// c16EdgeOperands: one operation per program whose operand sits on the edge between a value and a
+// run-time error - indices, slice bounds and store positions that are whole numbers, almost whole
+// numbers (floating-point noise) and fractions; numeric ranges with a step of zero, a negative or a
+// fractional step, and start before, at and after stop. Evaluator and VM must agree on the outcome
+// class and, when both complete, on every global.
+var (
+	c16EdgeIndex = []string{"(0.1 + 0.2) * 10", "0.3 / 0.1", "3", "1.5", "0.1 * 3 * 10", "-1 - 0.1 + 0.1", "0 - 0.0000000001", "2.0000000001", "4.9999999999", "5", "-5", "-5.0000000001"}
+	c16EdgeOps   = []string{"res = arr[k]\n", "t := arr[:k]\nt = t\n", "t := arr[k:]\nt = t\n", "arr[k] = 7\n", "ch := s[k]\nch = ch\n", "u := s[k:]\nu = u\n", "u := s[1:k]\nu = u\n"}
+	c16EdgeRange = [][3]string{{"3", "3", "z"}, {"10", "3", "z"}, {"0", "5", "z"}, {"5", "0", "z"}, {"k", "k", "(k - k)"}, {"10", "3", "-1"}, {"3", "10", "-1"}, {"0", "1", "0.25"}, {"1", "0", "-0.3"}, {"2", "2", "-0"}, {"4", "2", "(z * 2)"}}
+)
+
+func c16EdgeOperands(c *core.Ctx, n int) {
+	var b strings.Builder
+	globals := []gen.VarInfo{{Name: "arr", T: gen.ArrOf(tNum), Len: -1}, {Name: "s", T: tStr, Len: -1}, {Name: "res", T: tNum, Len: -1}, {Name: "k", T: tNum, Len: -1}, {Name: "z", T: tNum, Len: -1}, {Name: "after", T: tNum, Len: -1}}
+	b.WriteString("arr := [10 20 30 40 50]\narr = arr\ns := \"abcde\"\ns = s\nres := 0\nres = res + 1\nz := 0\nz = z\n")
+	total := len(c16EdgeIndex)*len(c16EdgeOps) + 2*len(c16EdgeRange)
+	n %= total
+	if n < len(c16EdgeIndex)*len(c16EdgeOps) {
+		k, op := c16EdgeIndex[n%len(c16EdgeIndex)], c16EdgeOps[n/len(c16EdgeIndex)]
+		fmt.Fprintf(&b, "k := %s\nk = k\n%s", k, op)
+		switch {
+		case strings.HasPrefix(op, "t :="):
+			globals = append(globals, gen.VarInfo{Name: "t", T: gen.ArrOf(tNum), Len: -1})
+		case strings.HasPrefix(op, "ch :="):
+			globals = append(globals, gen.VarInfo{Name: "ch", T: tStr, Len: -1})
+		case strings.HasPrefix(op, "u :="):
+			globals = append(globals, gen.VarInfo{Name: "u", T: tStr, Len: -1})
+		}
+		c.Cover("edge-operand", "index:"+k)
+	} else {
+		m := n - len(c16EdgeIndex)*len(c16EdgeOps)
+		rg := c16EdgeRange[m/2]
+		b.WriteString("k := 4\nk = k\n")
+		if m%2 == 0 {
+			fmt.Fprintf(&b, "for range %s %s %s\n    res = res + 1\n    if res > 50\n        break\n    end\nend\n", rg[0], rg[1], rg[2])
+		} else {
+			fmt.Fprintf(&b, "for i := range %s %s %s\n    res = res + i\n    if res > 50\n        break\n    end\nend\n", rg[0], rg[1], rg[2])
+		}
+		c.Cover("edge-operand", "range:"+strings.Join(rg[:], " "))
+	}
+	b.WriteString("after := 1\nafter = after + res\n")
+	text := b.String()
+	c.Cover("family", "edge-operands")
+	c.Journal(text)
+	c.Distinct(text)
+	c.Event("disagreements_checked", 1)
+	c16Compare(c, text, globals, "edge:")
 }
 
 // c16NestedBreaks: loops nested two and three deep where an enclosing loop has a break textually before,
